@@ -18,6 +18,8 @@ Rule family R8 (interval normal forms) on bisturi/fragments.py::Fragments:
  (7) a rejected insert leaves the buffer untouched: on every raising path nothing (cursor,
      chunk map, index) is written before the raise.
 The sparse-array behaviour over all histories (an inductive invariant) is not decided.
+
+Round 4: (R8-buffer-per-pack) Packet.pack hands pack_impl a buffer made for that call.
 """
 import ast
 
